@@ -113,6 +113,7 @@ type MemFS struct {
 	Files map[string]*MemFile // by path as given
 	Calls []Call
 	Hook  func(ctx context.Context, method, path string)
+	NextETag *string // when set: the entity tag Create gives to what it stores
 }
 
 type MemFile struct {
@@ -225,6 +226,9 @@ func (m *MemFS) Create(ctx context.Context, name string, body io.ReadCloser, opt
 	defer m.mu.Unlock()
 	_, existed := m.Files[name]
 	fi := webdav.FileInfo{Path: name, Size: int64(len(b)), ModTime: time.Unix(1600000000, 0).UTC(), ETag: fmt.Sprintf("mem-%d", len(b)), MIMEType: "application/octet-stream"}
+	if m.NextETag != nil {
+		fi.ETag = *m.NextETag
+	}
 	m.Files[name] = &MemFile{Info: fi, Data: b}
 	return &fi, !existed, nil
 }
